@@ -68,13 +68,13 @@ def apply_names(spec, df):
   return df
 
 
-def build_df(spec, shuffle=None, extra=False, split=False):
+def build_df(spec, shuffle=None, extra=False, split=False, outside=False):
   """Long frame of a specification. extra: add an unassigned geo and rows of a foreign period;
   split: spread the first geo of each group over two geos with the same total."""
-  return apply_names(spec, build_df0(spec, shuffle, extra, split))
+  return apply_names(spec, build_df0(spec, shuffle, extra, split, outside))
 
 
-def build_df0(spec, shuffle=None, extra=False, split=False):
+def build_df0(spec, shuffle=None, extra=False, split=False, outside=False):
   import pandas as pd
   t0 = pd.Timestamp('2022-01-03')
   recs = []
@@ -104,6 +104,12 @@ def build_df0(spec, shuffle=None, extra=False, split=False):
       per = 0 if t < spec['n_pre'] else 1 if t < spec['n_pre'] + spec['n_test'] else 2
       recs.append({'geo': 900, 'date': t0 + pd.Timedelta(days=t), 'period': per, 'group': -1, 'response': 77.0 + t, 'cost': 3.0})
     # dates outside the experiment (period label -1, "unassigned") before the pre-period, for every geo
+    for g in geos:
+      for k in range(1, 4):
+        recs.append({'geo': g['id'], 'date': t0 - pd.Timedelta(days=k), 'period': -1, 'group': g['group'],
+                     'response': 1000.0 * k, 'cost': 50.0})
+  if outside and not extra:
+    # days before the pre-period, labelled "unassigned" (-1), on which the experiment's geos already spent and sold
     for g in geos:
       for k in range(1, 4):
         recs.append({'geo': g['id'], 'date': t0 - pd.Timedelta(days=k), 'period': -1, 'group': g['group'],
